@@ -807,4 +807,52 @@ example : (Flt.and .resp (.not .c404)).eval (0 + 4) = true ∧ (Flt.and .resp (.
 example : specMode [0x2b, 0x2b, 0x78] = true ∧ specPath [0x2b, 0x2b, 0x78] = [0x2b, 0x78] ∧ specMode [] = false := by decide
 end Examples
 
+
+-- ------------------------------------------------------------------------------------------ round-6 audit witnesses
+section AuditWitnesses
+/-- a file system in which path 5 already holds a record -/
+private def fsA : FS Nat := { files := fun p => if p = 5 then [⟨9, 9⟩] else [], cur := none, trunc := fun _ => 0 }
+private def hOver : List (Ev Nat Nat) :=
+  [.update (some (some ⟨false, 0⟩)) none, .hook .request 1, .tick 5, .edit 1 3, .hook .response 1]
+private def hApp : List (Ev Nat Nat) :=
+  [.update (some (some ⟨true, 0⟩)) none, .hook .request 1, .tick 5, .edit 1 3, .hook .response 1]
+-- `completion_record_goes_to_formatted_path` / `completion_file_reachable`, rotation case (clock moved, path 0 → 5):
+-- overwrite spec empties the existing file 5 and appends the record; file 0 (opened earlier, empty) is unchanged
+example : (fsRun fsA (run envx (init (fun _ => 0)) hOver).2).files 5 = [⟨1, 3⟩] ∧
+    (fsRun fsA (run envx (init (fun _ => 0)) hOver).2).files 0 = [] ∧
+    (fsRun fsA (run envx (init (fun _ => 0)) hOver).2).cur = some 5 ∧
+    (run envx (init (fun _ => 0)) hOver).1.curPath = some 5 := by decide
+-- the hypotheses of `completion_file_reachable` hold on that history's prefix (stream open, not exited, completion,
+-- rotation target can be opened, flow passes the filter)
+example : (let s := (run envx (init (fun _ => 0)) (hOver.take 4)).1
+    (s.exited, s.stream.isSome, isCompletion envx s .response 1, s.optFile == some ⟨false, 0⟩,
+     (rotate envx s ⟨false, 0⟩).isSome, passes envx s.filt 1 (s.world 1))) = (false, true, true, true, true, true) := by decide
+-- `append_mode_keeps_prefix`: same history with a "+" spec keeps the old record of file 5 as a prefix
+example : (fsRun fsA (run envx (init (fun _ => 0)) hApp).2).files 5 = [⟨9, 9⟩, ⟨1, 3⟩] := by decide
+example : AppendOnly hApp := by
+  intro e he spec filt h
+  simp only [hApp, List.mem_cons, List.not_mem_nil, or_false] at he
+  rcases he with rfl | rfl | rfl | rfl | rfl <;> first | (cases h; rfl) | cases h
+-- `started_uncompleted_written_once_at_stop`, the `update(save_stream_file=None)` form: the open flow is flushed once
+-- by the stop; a later restart + `done` does not write it again
+example : writes (run envx (init (fun _ => 0))
+    [.update (some (some ⟨false, 0⟩)) none, .hook .tcpStart 2, .edit 2 5, .update (some none) none,
+     .update (some (some ⟨false, 0⟩)) none, .done]).2 = [⟨2, 5⟩] := by decide
+-- the side condition `hrot` matters: when the rotation target (path 9) cannot be opened at completion the addon
+-- exits and nothing is written
+private def hExit : List (Ev Nat Nat) :=
+  [.update (some (some ⟨false, 0⟩)) none, .hook .request 1, .tick 9, .hook .response 1]
+example : (run envx (init (fun _ => 0)) hExit).1.exited = true ∧ writes (run envx (init (fun _ => 0)) hExit).2 = [] := by
+  decide
+-- `lifecycle_written_exactly_once_flt` on the driver's environment: filter "~s & !(~c 404)"; flow 1 (HTTP, response 200)
+-- is written at its response, flow 2 (HTTP, response 404) is not
+example : writes (run (fltEnv driverFmt driverOpenFails) (init (fun _ => 0))
+    [.update (some (some ⟨false, 0⟩)) (some (.ok (.and .resp (.not .c404)))), .hook .request 1, .hook .request 2,
+     .edit 1 4, .edit 2 (4 + 256), .hook .response 2, .hook .response 1]).2 = [⟨1, 4⟩] := by decide
+-- a flow that completes twice (response, then error) is written at each completion: "each completion appends one record"
+example : writes (run envx (init (fun _ => 0))
+    [.update (some (some ⟨false, 0⟩)) none, .hook .request 1, .hook .response 1, .edit 1 2, .hook .error 1]).2
+    = [⟨1, 0⟩, ⟨1, 2⟩] := by decide
+end AuditWitnesses
+
 end MitmVerif.Props.C39
